@@ -5,6 +5,7 @@ package main
 import (
 	"strings"
 
+	"MODULEPATH/zzverif/fakenet"
 	"MODULEPATH/zzverif/rt"
 )
 
@@ -205,6 +206,62 @@ func VC06_FailingBackend() {
 			rt.Assert(nv == 1, "after a refused hand-over: exactly one Via of the proxy on what a backend receives")
 			rt.Assert(nr <= 1 && (nr == 1) == must, "after a refused hand-over: Record-Route by policy, once")
 		}
+	}
+	rt.Reach("end")
+}
+
+// VC06_ConnLearned: the next hop was learned through a connection-bound TCP transport (the kind the proxy creates for its
+// outbound connections and for backend connections): a request arrived over that connection from the hop, or listing it in
+// a Via. A request relayed to that hop afterwards gets the one new Via naming that transport (and the Record-Route entry
+// when the listener always records) — also when the connection has been closed by the peer in the meantime: learning is
+// "an earlier request received from that host", and nothing in the property lets a closed connection unlearn it.
+func VC06_ConnLearned() {
+	must := rt.Bool("must-record-route")
+	w := newWorld(worldOpts{nBackends: 1, mustRecordRoute: must})
+	c := fakenet.NewTCPConn(wListenAddr+":40123", "10.0.3.3:5070")
+	trans := NewTCPServerTransportWithConn(c, true, w.p.selfLearnRoute)
+	rt.Assert(trans != nil, "connection-bound transport created")
+	if trans == nil {
+		return
+	}
+	trans.Start(w.p)
+	rt.Quiesce()
+	via := "SIP/2.0/TCP 10.0.3.3:5070;branch=z9hG4bKe"
+	if rt.Bool("learned-by-via") {
+		via = "SIP/2.0/TCP 10.0.7.8:5060;branch=z9hG4bKe0,SIP/2.0/UDP 10.0.3.3:5070;branch=z9hG4bKe"
+	}
+	early := "OPTIONS sip:x@nowhere.invalid SIP/2.0\r\nVia: " + via + "\r\nFrom: <sip:e@example.com>;tag=e\r\nTo: <sip:x@nowhere.invalid>\r\nCall-ID: early\r\nCSeq: 1 OPTIONS\r\nContent-Length: 0\r\n\r\n"
+	c.Feed([]byte(early))
+	rt.Quiesce()
+	rt.Assert(len(w.sentAll()) == 0, "the unroutable learning request is dropped")
+	closed := rt.Bool("connection-closed-by-peer")
+	if closed {
+		c.EOF()
+		rt.Quiesce()
+	}
+	text := "INVITE sip:bob@far.example.net SIP/2.0\r\nVia: SIP/2.0/UDP 10.0.2.2:5060;branch=z9hG4bKc\r\nRoute: <sip:10.0.3.3:5070;lr>\r\nMax-Forwards: 70\r\n" +
+		"From: <sip:alice@example.com>;tag=a\r\nTo: <sip:bob@far.example.net>\r\nCall-ID: c1\r\nCSeq: 1 INVITE\r\nContent-Length: 0\r\n\r\n"
+	rt.Assert(w.deliver(text, "10.0.2.2", 5060, false), "request decodes")
+	sent := w.sentAll()
+	rt.Assert(len(sent) == 1, "the request is relayed exactly once")
+	if len(sent) != 1 {
+		return
+	}
+	m := refRead(sent[0].bytes)
+	gotV, gotR := m.listOf("via"), m.listOf("record-route")
+	rt.Assert(len(gotV) == 2, "exactly one new Via entry for a next hop learned through a connection")
+	if len(gotV) == 2 {
+		prefix := "SIP/2.0/TCP " + wListenAddr + ":40123;branch="
+		rt.Assert(strings.HasPrefix(gotV[0], prefix), "the new Via names the transport the hop was learned through")
+		if strings.HasPrefix(gotV[0], prefix) {
+			rt.Assert(isFreshBranch(gotV[0][len(prefix):]), "fresh branch with the magic cookie")
+		}
+		rt.Assert(gotV[1] == "SIP/2.0/UDP 10.0.2.2:5060;branch=z9hG4bKc", "the existing Via stays beneath")
+	}
+	if must {
+		rt.Assert(len(gotR) == 1 && gotR[0] == "<sip:"+wListenAddr+":40123;lr>", "always-record listener: one Record-Route entry for the learned transport")
+	} else {
+		rt.Assert(len(gotR) == 0, "no Record-Route entry is added")
 	}
 	rt.Reach("end")
 }
